@@ -13,10 +13,8 @@ EXPLANATION = (
     "(4) the three option-setting routes give identical options and identical probe parses."
 )
 BOUNDS = {
-    "quick": "(1) each optional rule off on js-default: its construct scaffold with 1-2 free characters; zero preset and html=False on FREE(2)+newline; "
-             "(2) FREE(2)+newline and three scaffolds, trigger characters excluded; (3) 6 reference scaffolds with 1 free character; "
-             "(4) symbolic option index (9 options) x symbolic value x 3 routes",
-    "thorough": "(1) FREE(3) per disabled rule + scaffolds with 2 free characters on both presets; (2) FREE(4); (3) 2 free characters",
+    "quick": '(1) each of 17 optional rules off on js-default: its 2-3 construct scaffolds with 1 free character; zero preset on 3 and html=False on 2 free characters + newline; (2) table/strikethrough on vs off on 2 free characters + newline and three scaffolds, trigger characters excluded; (3) 4 reference scaffolds with 1 free character, the two options switched together or opposite (symbolic); (4) symbolic option index (9 options) x symbolic value x 3 routes (attribute route where an accessor exists), preset left pristine',
+    "thorough": 'all quick jobs (core) plus the deeper families of thorough_extra() (not core): more free characters, the commonmark preset, the contexts the quick tier had to shed (DESIGN.md 10.5)',
 }
 OUTSIDE = "plugins' own options; rule subsets of size > 1 beyond the presets (pairs in thorough)"
 ASSUMPTIONS = ["rule -> token-kind table written from the documentation", "CR/NUL-free sources"]
